@@ -297,6 +297,17 @@ func genRx(rt *rapid.T) rxCase {
 	var ctr byte
 	avail := 0
 	ops := make([]op, 0, n)
+	if rapid.IntRange(0, 11).Draw(rt, "longqueue") == 0 {
+		// a long message: well over a hundred packets queued before anything is read
+		// (hundreds of packets are ordinary for a result set; only the bytes per packet are small here)
+		m := rapid.IntRange(120, 300).Draw(rt, "manypackets")
+		for i := 0; i < m; i++ {
+			sz := rapid.IntRange(1, 3).Draw(rt, "smallsize")
+			ops = append(ops, op{K: "add", B: genBytes(rt, sz, &ctr)})
+			avail += sz
+		}
+		n += m
+	}
 	kinds := []string{"add", "add", "add", "bytes", "bytes", "bytes", "string", "read", "read", "u8", "i8", "byte", "u16", "i16", "u32", "i32", "u64", "i64", "save", "restore", "discard", "discard", "reset", "state", "state"}
 	for len(ops) < n {
 		k := rapid.SampledFrom(kinds).Draw(rt, "kind")
@@ -502,6 +513,21 @@ func genTx(rt *rapid.T) txCase {
 	var ctr byte
 	kinds := []string{"write", "write", "write", "write", "iowrite", "wstring", "wbyte", "wu8", "wi8", "wu16", "wi16", "wu32", "wi32", "wu64", "wi64", "size", "discard", "discard", "readback", "readback", "reset"}
 	ops := make([]op, 0, n)
+	if rapid.IntRange(0, 11).Draw(rt, "longqueue") == 0 {
+		// a long message: one write (or a few) filling well over a hundred packets
+		for k := rapid.IntRange(1, 3).Draw(rt, "bigwrites"); k > 0; k-- {
+			pk := rapid.IntRange(50, 300).Draw(rt, "manypackets")
+			sz := pk * (size - 8)
+			if sz > 40000 {
+				sz = 40000
+			}
+			ops = append(ops, op{K: "write", B: genBytes(rt, sz+rapid.IntRange(0, 3).Draw(rt, "tail"), &ctr)})
+			if rapid.Bool().Draw(rt, "smallbetween") {
+				ops = append(ops, op{K: "wu32", N: 7})
+			}
+		}
+		n += len(ops)
+	}
 	for len(ops) < n {
 		k := rapid.SampledFrom(kinds).Draw(rt, "kind")
 		o := op{K: k}
